@@ -25,7 +25,7 @@ SCOPED = ("struct", "seq", "fseq", "bitstruct", "alignedstruct", "union", "lazys
 
 
 def is_expr(x):
-    return isinstance(x, list) and x and x[0] in ("this", "obj", "const", "bin", "un", "fn")
+    return isinstance(x, list) and x and x[0] in ("this", "obj", "const", "bin", "un", "fn", "lam")
 
 
 def ev(x):
@@ -87,6 +87,8 @@ def realise(spec):
         if via == "short":
             return getattr(C, SHORT_FLOAT[n])
         return C.FormatField(ENDCHAR[endian], FF_FLOAT[n])
+    if k == "bint":             # BytesInteger with context-dependent length and/or byte order
+        return C.BytesInteger(param(spec[1]), signed=spec[2], swapped=param(spec[3]))
     if k == "varint":
         return C.VarInt
     if k == "zigzag":
@@ -249,6 +251,12 @@ def realise(spec):
         return C.Hex(R(spec[1]))
     if k == "hexdump":
         return C.HexDump(R(spec[1]))
+    if k == "seek":
+        return C.Seek(param(spec[1]), spec[2])
+    if k == "namedtuple":
+        return C.NamedTuple("T", " ".join(spec[1]), R(spec[2]))
+    if k == "restreamdata":
+        return C.RestreamData(spec[1], R(spec[2]))
     if k == "peek":
         return C.Peek(R(spec[1]))
     if k == "pointer":
@@ -282,7 +290,8 @@ def children(spec):
         return [spec[1]]
     if k == "const":
         return [spec[2]] if spec[2] is not None else []
-    if k in ("array", "runtil", "if", "fixedsized", "padded", "aligned", "xor", "pointer", "lazyarray", "offsettedend"):
+    if k in ("array", "runtil", "if", "fixedsized", "padded", "aligned", "xor", "pointer", "lazyarray", "offsettedend", "namedtuple",
+             "restreamdata"):
         return [spec[2]]
     if k == "pascal":
         return [spec[1]]
@@ -362,7 +371,7 @@ def fixed_size(spec, bit=False):
         return spec[1]
     if k == "float":
         return spec[1]
-    if k in ("bytes", "pstr", "fixedsized", "padded"):
+    if k in ("bytes", "pstr", "fixedsized", "padded", "bint"):
         return const(spec[1])
     if k == "padding":
         return const(spec[1])
@@ -462,4 +471,6 @@ def _expr_params(s):
         return [s[2]]
     if k == "rol":
         return [s[1], s[2]]
+    if k == "bint":
+        return [s[1], s[3]]
     return []
